@@ -63,6 +63,10 @@ class ExpRunDetails(object):
 
         parallel_interference_factor = none_or_float(_value_or_default(
             config, 'parallel_interference_factor', defaults.parallel_interference_factor))
+        if parallel_interference_factor is not None and \
+                parallel_interference_factor != parallel_interference_factor:
+            # nan is not equal to itself: the run would never be found again in the data file
+            raise ConfigurationError("The parallel_interference_factor setting is .nan.")
         execute_exclusively = none_or_bool(_value_or_default(
             config, 'execute_exclusively', defaults.execute_exclusively))
 
